@@ -101,11 +101,25 @@ def build_1d(rec):
     return g
 
 
-def gen_1d(rng, tier, embed=True, renumber=True):
+def gen_affine(rng):
+    """Exact dyadic change of units: x -> (x + shift) * 2**k (a third of the grids)."""
+    if rng.random() < 0.67:
+        return 0.0, 1.0
+    return rng.choice([-64.0, -2.5, 0.0, 0.25, 32.0]), 2.0 ** rng.choice([-12, -3, 3, 10, 20])
+
+
+def gen_1d(rng, tier, embed=True, renumber=True, affine=None):
     n = rng.randint(1, 6 if tier == "quick" else 9)
     xs = [rng.choice([-2.0, -0.5, 0.0, 1.0])]
     for _ in range(n):
         xs.append(xs[-1] + rng.choice([0.25, 0.5, 1.0, 1.5, 2.0, 3.0]))
+    sh, sc = affine if affine is not None else gen_affine(rng)
+    xs2 = [(x + sh) * sc for x in xs]
+    try:
+        build_1d({"xs": xs2})
+        xs = xs2
+    except Exception:
+        pass   # compute_geometry refuses these units (absolute tolerances of the geometry code)
     rec = {"xs": xs}
     if embed and rng.random() < 0.4:
         rec["sy"] = rng.choice([0.5, 1.0, -2.0])
@@ -136,14 +150,24 @@ def build_tri(rec):
     else:
         p = np.array(rec["pts"], dtype=float).T
         g = pp.TriangleGrid(np.vstack((p, np.zeros(p.shape[1]))), np.array(rec["tri"]).T)
+    if rec.get("affine"):
+        sh, sc = rec["affine"]
+        g.nodes[:2] = (g.nodes[:2] + sh) * sc
     g.compute_geometry()
     if rec.get("renum"):
         g = renumbered_grid(g, rec["renum"])
     return g
 
 
-def gen_tri(rng, tier):
+def gen_tri(rng, tier, affine=None):
     rec = _gen_tri(rng, tier)
+    sh, sc = affine if affine is not None else gen_affine(rng)
+    if sc != 1.0 or sh != 0.0:
+        rec["affine"] = [sh, sc]
+        try:
+            build_tri(rec)
+        except Exception:
+            del rec["affine"]   # compute_geometry refuses these units (absolute tolerances)
     if rng.random() < 0.35:
         # same triangles with permuted node / face / cell numbering (a plain pp.Grid)
         rec["renum"] = gen_renum(rng, build_tri(rec))
@@ -183,6 +207,9 @@ def build_base(rec):
         return build_1d(rec["rec"])
     if k == "cart2":
         g = pp.CartGrid(np.array(rec["dims"]))
+        if rec.get("affine"):
+            sh, sc = rec["affine"]
+            g.nodes[:2] = (g.nodes[:2] + sh) * sc
         g.compute_geometry()
         if rec.get("renum"):
             g = renumbered_grid(g, rec["renum"])
@@ -252,8 +279,9 @@ class C23(Prop):
             "non-nested and 2-D nested pairs), extrude 23% (0/1/2-D bases incl. permuted numberings and subdomains of real md-grids with "
             "crossing fractures, 1-4 layers, increasing "
             "non-negative or decreasing non-positive z, mixed-sign error inputs). non-trivial = more than "
-            "one parent cell or ratio/layers > 1")
-    trusted = ["float outputs compared with the exact model within 1e-9*(1+|x|) on dyadic inputs",
+            "one parent cell or ratio/layers > 1; a third of all grids in other units: coordinates "
+            "(x + shift) * 2^k with k in -12..20, layer heights times 2^k")
+    trusted = ["float outputs compared with the exact model within 1e-9*(1+|x|) on dyadic inputs (the oracle uses purely relative bands, so grids in any units are judged at their own scale)",
                "g.face_centers = edge midpoints for 2-D grids (tie-checked)",
                "get_all_boundary_nodes / cell_nodes() of the input grids"]
     assumptions = ["ratio >= 1, num_nodes >= 2, z monotone (documented precondition of extrude_grid)",
@@ -284,11 +312,14 @@ class C23(Prop):
         return {"kind": "sr2d", "grid": gen_tri(rng, tier)}
 
     def _gen_extrude(self, rng, tier):
+        # one change of units for the base grid and the layer heights (independent units give
+        # aspect ratios of 1e6 and more, which compute_normal rejects as collinear point sets)
+        aff = gen_affine(rng)
         r = rng.random()
         if r < 0.15:
             base = {"kind": "point", "p": [rng.randint(-4, 4) / 2.0, rng.randint(-4, 4) / 2.0, 0.0]}
         elif r < 0.4:
-            rec = gen_1d(rng, tier, embed=False, renumber=True)
+            rec = gen_1d(rng, tier, embed=False, renumber=True, affine=aff)
             if rng.random() < 0.5:
                 rec["sy"] = rng.choice([0.5, 1.0, -1.0])
                 if rec.get("renum"):
@@ -305,14 +336,24 @@ class C23(Prop):
                     "dim": rng.choice([1, 1, 1, 2, 0]), "pick": rng.randint(0, 3)}
         elif r < 0.68:
             base = {"kind": "cart2", "dims": [rng.randint(1, 3), rng.randint(1, 2)]}
+            sh, sc = aff
+            if sc != 1.0 or sh != 0.0:
+                base["affine"] = [sh, sc]
+                try:
+                    build_base(base)
+                except Exception:
+                    del base["affine"]
             if rng.random() < 0.5:
                 base["renum"] = gen_renum(rng, build_base(base))
         else:
-            base = {"kind": "tri", "rec": gen_tri(rng, tier)}
+            base = {"kind": "tri", "rec": gen_tri(rng, tier, affine=aff)}
         k = rng.randint(1, 4)
         z = [rng.choice([0.0, 0.0, 0.5, 1.0])]
         for _ in range(k):
             z.append(z[-1] + rng.choice([0.25, 0.5, 1.0, 2.0]))
+        if base["kind"] not in ("frac", "point"):
+            zf = aff[1] * 2.0 ** rng.choice([-2, 0, 0, 1])
+            z = [x * zf for x in z]
         s = rng.random()
         if s < 0.3:
             z = [-x for x in z]
@@ -416,20 +457,27 @@ class C23(Prop):
                 return f"{vol.size} cells after refining {g.num_cells} cells by {r}"
             if np.any(vol <= 0):
                 return "non-positive cell volume in the refined grid"
-            if abs(vol.sum() - pvol.sum()) > TOL * (1 + pvol.sum()):
+            if abs(vol.sum() - pvol.sum()) > TOL * (pvol.sum()):
                 return f"total length {pvol.sum()} -> {vol.sum()}"
+            # valid grid: a face belongs to one or two cells, with opposite signs if two
+            occ = {}
+            for f, sgn in zip(res["ind"], res["data"]):
+                occ.setdefault(f, []).append(sgn)
+            for f, sg in occ.items():
+                if sorted(sg) not in ([-1], [1], [-1, 1]):
+                    return f"face {f} of the refined grid has cell-face signs {sg}"
             x = np.array(res["nodes"]).reshape(3, -1)
             cells = _cells_1d(g)
             for c in range(g.num_cells):
                 a, b = g.nodes[:, cells[c][0]], g.nodes[:, cells[c][1]]
                 ch = range(c * r, (c + 1) * r)
-                if abs(vol[list(ch)].sum() - pvol[c]) > TOL * (1 + pvol[c]):
+                if abs(vol[list(ch)].sum() - pvol[c]) > TOL * (pvol[c]):
                     return f"children of cell {c} have total length {vol[list(ch)].sum()} != {pvol[c]}"
                 for j in ch:
                     for n in res["ind"][res["indptr"][j]:res["indptr"][j + 1]]:
                         p = x[:, n]
                         t = np.dot(p - a, b - a) / np.dot(b - a, b - a)
-                        if t < -TOL or t > 1 + TOL or np.linalg.norm(a + t * (b - a) - p) > TOL:
+                        if t < -TOL or t > 1 + TOL or np.linalg.norm(a + t * (b - a) - p) > TOL * np.linalg.norm(b - a):
                             return f"node {n} of child {j} is outside parent cell {c}"
             return None
         if k == "remesh":
@@ -438,7 +486,7 @@ class C23(Prop):
                 return f"{res['ncells']} cells for {case['m']} nodes"
             if np.any(vol <= 0):
                 return "non-positive cell volume"
-            if abs(vol.sum() - pvol.sum()) > TOL * (1 + pvol.sum()):
+            if abs(vol.sum() - pvol.sum()) > TOL * (pvol.sum()):
                 return f"total length {pvol.sum()} -> {vol.sum()}"
             # the old domain, found geometrically (independent of any node numbering and of
             # get_all_boundary_nodes): the two extreme old nodes along the line
@@ -447,14 +495,14 @@ class C23(Prop):
             d = g.nodes[:, far] - g.nodes[:, 0]
             par = d @ (g.nodes - g.nodes[:, [0]]) / (d @ d)
             a, b = g.nodes[:, int(np.argmin(par))], g.nodes[:, int(np.argmax(par))]
-            if abs(np.linalg.norm(b - a) - pvol.sum()) > TOL * (1 + pvol.sum()):
+            if abs(np.linalg.norm(b - a) - pvol.sum()) > TOL * (pvol.sum()):
                 return None   # the old grid is not one straight connected line: outside the domain
             x = np.array(res["nodes"]).reshape(3, -1)
             ts = []
             for i in range(x.shape[1]):
                 t = np.dot(x[:, i] - a, b - a) / np.dot(b - a, b - a)
                 ts.append(t)
-                if t < -TOL or t > 1 + TOL or np.linalg.norm(a + t * (b - a) - x[:, i]) > TOL:
+                if t < -TOL or t > 1 + TOL or np.linalg.norm(a + t * (b - a) - x[:, i]) > TOL * np.linalg.norm(b - a):
                     return f"node {i} outside the old domain"
             if min(ts) > TOL or max(ts) < 1 - TOL:
                 return (f"the remeshed grid covers only [{min(ts):.6g}, {max(ts):.6g}] of the old "
@@ -468,7 +516,7 @@ class C23(Prop):
                 return f"{vol.size} cells / {len(parent)} parents for {g.num_cells} triangles"
             if any(p < 0 or p >= g.num_cells for p in parent):
                 return "parent index out of range"
-            if abs(vol.sum() - pvol.sum()) > TOL * (1 + pvol.sum()):
+            if abs(vol.sum() - pvol.sum()) > TOL * (pvol.sum()):
                 return f"total area {pvol.sum()} -> {vol.sum()}"
             x = np.array(res["nodes"]).reshape(3, -1)
             cn = g.cell_nodes().tocsc()
@@ -476,7 +524,7 @@ class C23(Prop):
                 ch = [j for j, p in enumerate(parent) if p == c]
                 if len(ch) != 4:
                     return f"cell {c} has {len(ch)} children"
-                if abs(vol[ch].sum() - pvol[c]) > TOL * (1 + pvol[c]):
+                if abs(vol[ch].sum() - pvol[c]) > TOL * (pvol[c]):
                     return f"children of cell {c} have total area {vol[ch].sum()} != {pvol[c]}"
                 A, B, C = (g.nodes[:2, n] for n in cn.indices[cn.indptr[c]:cn.indptr[c + 1]])
                 for j in ch:
@@ -533,20 +581,21 @@ class C23(Prop):
                 return "dimension not increased by one"
             if np.any(vol <= 0):
                 return "non-positive cell volume in the extruded grid"
-            if abs(vol.sum() - pvol.sum() * height) > TOL * (1 + pvol.sum() * height):
+            if abs(vol.sum() - pvol.sum() * height) > TOL * (pvol.sum() * height):
                 return f"total measure {vol.sum()} != {pvol.sum()} * {height}"
             seen = sorted(j for row in res["cmap"] for j in row)
             if seen != list(range(res["ncells"])) or len(res["cmap"]) != g.num_cells:
                 return "cell map does not assign every new cell to exactly one parent"
             cc, pcc = np.array(res["cc"]).reshape(3, -1), np.array(res["pcc"]).reshape(3, -1)
+            S = max(float(np.max(np.abs(np.array(res["nodes"])))), np.finfo(float).tiny)   # length scale
             dz = np.abs(np.diff(z))
             for c, row in enumerate(res["cmap"]):
-                if abs(vol[row].sum() - pvol[c] * height) > TOL * (1 + pvol[c] * height):
+                if abs(vol[row].sum() - pvol[c] * height) > TOL * (pvol[c] * height):
                     return f"children of cell {c}: measure {vol[row].sum()} != {pvol[c]} * {height}"
-                if len(row) != len(dz) or np.any(np.abs(vol[row] - pvol[c] * dz) > TOL * (1 + pvol[c] * dz)):
+                if len(row) != len(dz) or np.any(np.abs(vol[row] - pvol[c] * dz) > TOL * (pvol[c] * dz)):
                     return f"children of cell {c} are not the layers of its prism"
                 for kk, j in enumerate(row):
-                    if np.linalg.norm(cc[:2, j] - pcc[:2, c]) > 1e-9 or not (
+                    if np.linalg.norm(cc[:2, j] - pcc[:2, c]) > 1e-9 * S or not (
                             min(z[kk], z[kk + 1]) < cc[2, j] < max(z[kk], z[kk + 1])):
                         return f"child {j} of cell {c} is not inside its prism layer"
             # nesting, node by node: child k of cell c is the prism over c between z[k] and
@@ -560,8 +609,8 @@ class C23(Prop):
                     want = {(i, lev) for i in range(len(corners)) for lev in (0, 1)}
                     for n in res["cnodes"][j]:
                         hit = [i for i in range(len(corners))
-                               if np.linalg.norm(corners[i] - x[:2, n]) <= 1e-9]
-                        lev = [l for l in (0, 1) if abs(x[2, n] - z[kk + l]) <= 1e-9]
+                               if np.linalg.norm(corners[i] - x[:2, n]) <= 1e-9 * S]
+                        lev = [l for l in (0, 1) if abs(x[2, n] - z[kk + l]) <= 1e-9 * S]
                         if not hit or not lev:
                             return (f"node {n} of child {j} (layer {kk}) is not a corner of the prism "
                                     f"over parent cell {c}")
